@@ -2,7 +2,7 @@
 from engines.arena_prop import run_arena_property
 
 def run(ctx):
-    return run_arena_property(ctx, ["BumpProof.Props.C14"],
+    return run_arena_property(ctx, ["BumpProof.Props.C14", "BumpProof.Props.Hist2@C14"],
         runs_quick=[('claims', 200, 100)],
         runs_thorough=[('claims', 8000, 200)],
         fields=(0, 2, 3), extra_oracles=(),
